@@ -1176,10 +1176,10 @@ PROPS['C09'].update(
     not_covered=["state_read_content record decoders other than the 'Q' validity region", 'inside of state_write_content / state_verify_content / state_rename_content (O_EXCL, flush, fsync, re-read)', 'crash points (not a contract-level statement)', 'that a CRC mismatch is always reached before any state is used'])
 PROPS['C10'].update(
     explanation='Codec pairs of the content file are exact inverses for ALL values: sgetb32(sputb32(v)) == v for all 2^32 v, sgetb64(sputb64(v)) == v for all 2^64 v, sgetble32/sputble32, sgetbs/sputbs (strings up to 6 arbitrary non-NUL bytes), with the bytes travelling through write() and read() stubs under every chunking and buffer size 1..4; the encoder output is minimal (canonical) and terminated as specified, nothing is left over. '
-                'Record level (mechanically extracted encode/decode regions of state.c, integers travelling through a FIFO that stands for sputb32/sgetb32): the nanosecond field of the f record and the per-stripe info word of the i record round-trip for all values (a time in the future is clamped to now - the documented normalisation). The block runs of the f record (writer loop and reader loop connected through a recorded event stream; bounded: 2 blocks, hash size 4, and 1 block with hash size 16), the header of the f record (size, time, inode, path through a TYPED event stream) and the header records of the file (format version choice, block size, stripe count, hash size, hash kind + seed, previous hash kind + seed: writer region and the five reader branches) round-trip for every value. Disk maps: index assignment loop, M writer loop and M reader branch (three extracted regions) - entry k of the rebuilt mapping vector is the disk that was given index k, every field of a map survives (bounded: 3 disks). Hole record: writer and reader loops connected - deleted blocks come back at their positions with hash and state (bounded: 3 positions). The info run-length encoding, parity / link / dir records are not under contract.',
+                'Record level (mechanically extracted encode/decode regions of state.c, integers travelling through a FIFO that stands for sputb32/sgetb32): the nanosecond field of the f record and the per-stripe info word of the i record round-trip for all values (a time in the future is clamped to now - the documented normalisation). The block runs of the f record (writer loop and reader loop connected through a recorded event stream; bounded: 2 blocks, hash size 4, and 1 block with hash size 16), the header of the f record (size, time, inode, path through a TYPED event stream) and the header records of the file (format version choice, block size, stripe count, hash size, hash kind + seed, previous hash kind + seed: writer region and the five reader branches) round-trip for every value. Disk maps: index assignment loop, M writer loop and M reader branch (three extracted regions) - entry k of the rebuilt mapping vector is the disk that was given index k, every field of a map survives (bounded: 3 disks). Hole record: writer and reader loops connected - deleted blocks come back at their positions with hash and state (bounded: 3 positions). Info record: the run-length loops of writer and reader connected - every stripe gets back its own word (bounded: 3 stripes). Link / directory records: name, target and kind of every link, name of every empty directory, in order (bounded: 2 + 2). Parity records (Q, and P for format 2): block counts, uuid and 64-bit size of every split (concrete geometries). fs_is_empty (real): a disk is left out of the file only if it holds nothing.',
     trusted_base=['read()/write() stubs in harness/h_stream.c'],
     assumptions=['sputbs/sgetbs round trip bounded to strings of at most 6 bytes'],
-    not_covered=['info (i record) run-length codec, parity / link / dir records', 'tommyds containers, list ordering, byte identity of whole files'])
+    not_covered=['the record dispatcher of state_read_content (restated in the drivers), the file-level loops around the record bodies', 'tommyds containers, list ordering, byte identity of whole files'])
 PROPS['C17'].update(
     explanation='parity_split_find carries a dfcc-enforced contract for every size vector of up to SPLIT_MAX=8 splits and every offset: the result is the unique split k with prefix(k) + offset\' == offset and 0 <= offset\' < size_k, NULL exactly outside the recorded sizes, only *offset assigned. Over two calls: the address map is injective and, with block-aligned split sizes, no stripe straddles two files. '
                 'parity_write / parity_read hand exactly (fd of split k, offset\', block_size) to pwrite/pread and maintain valid_size monotonically (block sizes 2^10..2^24, concrete per unit). hbit_u64 is the highest set bit (dfcc, all 2^64 values). parity_handle_fill carries an UNBOUNDED inductive loop contract (invariant + decreases, injected into a scratch copy of parity.c, grow/shrink/hbit replaced by contracts): the file ends block aligned, never above the request, never below its previous aligned size, and exactly at the request when the OS granted every grow.',
@@ -1225,10 +1225,10 @@ PROPS['C18'].update(
     assumptions=['bounded: patterns <= 5 bytes, lists <= 3 rules, probe path a/b/c', 'filter_content (printf based), hidden-file rule, -f/-d/-m/-e selection in state_filter and "nothing outside the selection is written" are NOT yet under an obligation'],
     not_covered=['filter_content', 'filter_hidden', 'state_filter', 'scan.c call sites'])
 PROPS['C20'].update(
-    explanation='The escaping layer of the reports and the bad / unsynced summary of status (state_status per-stripe loop: exact count, first and last position of bad stripes, exact unsynced / rehash / unscrubbed counts): esc_tag is reversible for every string (<= 5 bytes, all byte values), never emits a raw newline / carriage return / colon and only the escapes \\n \\r \\d \\\; esc_shell output read back under POSIX shell quoting rules is the original single word, no blank or metacharacter is left unquoted - EXCEPT tab and newline, which it leaves raw (KNOWN-FINDING, shown with the real binary: `snapraid list` prints a file named a<LF>b on two lines). pool: the real clean_dir (extracted whole) over a symbolic pool tree removes exactly the directories left empty, each once, bottom-up, wherever they sit among links and foreign files (bounded tree).',
+    explanation='The escaping layer of the reports and the bad / unsynced summary of status (state_status per-stripe loop: exact count, first and last position of bad stripes, exact unsynced / rehash / unscrubbed counts): esc_tag is reversible for every string (<= 5 bytes, all byte values), never emits a raw newline / carriage return / colon and only the escapes \\n \\r \\d \\\; esc_shell output read back under POSIX shell quoting rules is the original single word, no blank or metacharacter is left unquoted - EXCEPT tab and newline, which it leaves raw (KNOWN-FINDING, shown with the real binary: `snapraid list` prints a file named a<LF>b on two lines). pool: the real clean_dir (extracted whole) over a symbolic pool tree removes exactly the directories left empty, each once, bottom-up, wherever they sit among links and foreign files (bounded tree); the real make_link keeps an existing link only with the recorded time-stamp AND target, otherwise removes it and creates a link to the recorded location with the time-stamp of the file.',
     trusted_base=['POSIX shell quoting rules as transcribed in harness/h_esc.c', 'opendir / readdir / lstat / rmdir / closedir, pathprint / pathslash by stub in pool.clean_dir (paths abstracted to the node they name)'],
     assumptions=['strings bounded to 5 bytes (every escape is per character, independent of position)', 'list / diff bodies and the link creation of pool (printf + file system over tommy lists) are NOT under an obligation; of status only the per-stripe summary loop is (bounded: 4 stripes, 2 disks); of dup the digest construction, the comparison and the per-file loop body are (bounded)'],
-    not_covered=['list.c, pool.c other than clean_dir, the rest of status.c (file statistics, scrub age histogram)'])
+    not_covered=['list.c, pool.c other than clean_dir and make_link (read_dir, the walk of state_pool), the rest of status.c (file statistics, scrub age histogram)'])
 MANIFEST_TEXT.update({
     'C15': dict(level_text='The selection rule of every plan and the limit arithmetic are per-call statements and are decided for all inputs (decision table) / all sorted maps up to 8 entries (limits). The per-stripe mark update inside the 700-line scrub loop and liveness are not claimed - hence level other with the exact functions listed.',
                 design_ref='DESIGN.md section 4 C15', level_note='region extraction for the limit computation; qsort assumed; mark-update chain and liveness not covered', technique='CBMC contracts (dfcc replace) + driver on real cmdline/scrub.c, mechanically extracted region'),
